@@ -177,10 +177,12 @@ func init() {
 }
 
 func (cmd commandFeat) Execute(conn *Conn, param string) {
+	// the package-level list is shared by all sessions: extend a copy
+	list := featCmds
 	if conn.tlsConfig != nil {
-		featCmds += " AUTH TLS\n PBSZ\n PROT\n"
+		list += " AUTH TLS\n PBSZ\n PROT\n"
 	}
-	conn.writeMessageMultiline(211, fmt.Sprintf(feats, featCmds))
+	conn.writeMessageMultiline(211, fmt.Sprintf(feats, list))
 }
 
 // cmdCdup responds to the CDUP FTP command.
